@@ -333,3 +333,70 @@ func VIsIntArith(op InfixOperator) bool {
 func VIsFloatArith(op InfixOperator) bool {
 	return op == PlusInfixOperator || op == MinusInfixOperator || op == MultiplyInfixOperator || op == DivideInfixOperator || op == PowerInfixOperator
 }
+
+// ---------------------------------------------------------------------------
+// Printing (C19): an operator prints as exactly the text the lexer reads back
+// as that operator's token.
+
+// VTokOfAssign: the token that denotes an assignment operator.
+func VTokOfAssign(op AssignOperator) lexer.TokenKind {
+	switch op {
+	case StdAssignOperatorKind:
+		return lexer.Assign
+	case PlusAssignOperatorKind:
+		return lexer.PlusAssign
+	case MinusAssignOperatorKind:
+		return lexer.MinusAssign
+	case MultiplyAssignOperatorKind:
+		return lexer.MultiplyAssign
+	case DivideAssignOperatorKind:
+		return lexer.DivideAssign
+	case ModuloAssignOperatorKind:
+		return lexer.ModuloAssign
+	case PowerAssignOperatorKind:
+		return lexer.PowerAssign
+	case ShiftLeftAssignOperatorKind:
+		return lexer.ShiftLeftAssign
+	case ShiftRightAssignOperatorKind:
+		return lexer.ShiftRightAssign
+	case BitOrAssignOperatorKind:
+		return lexer.BitOrAssign
+	case BitAndAssignOperatorKind:
+		return lexer.BitAndAssign
+	}
+	return lexer.BitXorAssign
+}
+
+// VTokOfPrefix: the token that denotes a prefix operator.
+func VTokOfPrefix(op PrefixOperator) lexer.TokenKind {
+	switch op {
+	case MinusPrefixOperator:
+		return lexer.Minus
+	case NegatePrefixOperator:
+		return lexer.Not
+	}
+	return lexer.QuestionMark
+}
+
+// VTextOfInfix / VTextOfAssign / VTextOfPrefix: the lexer's text of the operator's token.
+func VTextOfInfix(op InfixOperator) string   { return lexer.VOpText(VTokOfInfix(op)) }
+func VTextOfAssign(op AssignOperator) string { return lexer.VOpText(VTokOfAssign(op)) }
+func VTextOfPrefix(op PrefixOperator) string { return lexer.VOpText(VTokOfPrefix(op)) }
+
+/*@ func (self InfixOperator) String
+    serves C19
+    requires self <= GreaterThanEqualInfixOperator
+    ensures @reads-back result == VTextOfInfix(self) && VInfixOf(VTokOfInfix(self)) == self && VIsInfixTok(VTokOfInfix(self))
+@*/
+
+/*@ func (self AssignOperator) String
+    serves C19
+    requires self <= BitXorAssignOperatorKind
+    ensures @reads-back result == VTextOfAssign(self) && VAssignOf(VTokOfAssign(self)) == self && VIsAssignTok(VTokOfAssign(self))
+@*/
+
+/*@ func (self PrefixOperator) String
+    serves C19
+    requires self <= IntoSomePrefixOperator
+    ensures @reads-back result == VTextOfPrefix(self) && VIsPrefixTok(VTokOfPrefix(self))
+@*/
